@@ -247,6 +247,18 @@ def _modify_corpus():
                     "copies": [{"file": 0, "node": "n1", "has": has, "wants": wants, "disk": disk}, {"file": 1, "node": "n1", "has": "Y", "wants": "Y"}],
                     "reqs": [], "rules": [], "unregistered": [], "ireqs": []}
             out.append((spec, [("cli", "file import", ["acq1/f0.dat", "n1"]), ("iter", "h1"), ("iter", "h1"), ("cli", "file import", ["acq1/f0.dat", "n1", "--register-new"]), ("iter", "h1"), ("iter", "h1")]))
+    # discretionary cleaning: a removable copy on a field node short of space, two archive copies elsewhere; what is unlinked must be recorded removed
+    for wants in ("M", "N"):
+        for name in ("f0.dat", "sub/deep/f1"):
+            spec = {"groups": [{"name": "g1"}, {"name": "g2"}, {"name": "g3"}],
+                    "nodes": [{"name": "n1", "group": "g1", "stype": "F", "host": "h1", "active": True, "username": "u", "address": "addr", "min_avail_gb": 1e9},
+                              {"name": "n2", "group": "g2", "stype": "A", "host": "h2", "active": True, "username": "u", "address": "addr"},
+                              {"name": "n3", "group": "g3", "stype": "A", "host": "h2", "active": True, "username": "u", "address": "addr"}],
+                    "acqs": ["acq1"], "files": [{"acq": "acq1", "name": name, "size": 150}, {"acq": "acq1", "name": "keep", "size": 13}],
+                    "copies": [{"file": 0, "node": "n1", "has": "Y", "wants": wants}, {"file": 0, "node": "n2", "has": "Y", "wants": "Y"}, {"file": 0, "node": "n3", "has": "Y", "wants": "Y"},
+                               {"file": 1, "node": "n1", "has": "Y", "wants": "Y"}],
+                    "reqs": [], "rules": [], "unregistered": [], "ireqs": []}
+            out.append((spec, [("iter", "h1"), ("iter", "h1"), ("iter", "h2")]))
     return out
 
 
